@@ -110,3 +110,27 @@ package filehandler
 //   once refused (n <= 0) every later step refuses.
 //@ lemma counter_budget_step props C18: forall n int, n2 int, allowed int, budget int, allow bool :: allowed + ite(n > 0, n, 0) <= budget && n2 == n - 1 && (allow ==> n >= 1) && (!allow ==> n2 <= 0) ==> ite(allow, allowed + 1, allowed) + ite(n2 > 0, n2, 0) <= budget
 //@ lemma counter_refusal_sticks props C18: forall n int, n2 int, allow bool :: n <= 0 && n2 == n - 1 && (allow ==> n >= 1) ==> !allow && n2 <= 0
+
+// how the sets are populated: an absolute name is entered as written ("/" as the system-root flag), a
+// relative name as the directory entry workPath/name + "/"; nothing already in the set is removed
+//@ func runner/ptrace/filehandler.(*FileSet).Add props C18
+//@   arith int
+//@   requires s != nil && s.Set != nil
+//@   assigns s.SystemRoot, mapof(s.Set)
+//@   ensures name == "/" ==> s.SystemRoot
+//@   ensures name != "/" ==> has(s.Set, name) && s.Set[name] && s.SystemRoot == old(s.SystemRoot)
+//@   ensures forall x string :: old(has(s.Set, x) && s.Set[x]) ==> has(s.Set, x) && s.Set[x]
+//@ func runner/ptrace/filehandler.(*FileSet).AddRange props C18
+//@   arith int
+//@   requires s != nil && s.Set != nil
+//@   assigns s.SystemRoot, mapof(s.Set)
+//@   ensures forall k int :: 0 <= k && k < len(names) && isabs(names[k]) && names[k] != "/" ==> has(s.Set, names[k]) && s.Set[names[k]]
+//@   ensures forall k int :: 0 <= k && k < len(names) && !isabs(names[k]) ==> has(s.Set, joined(workPath, names[k]) + "/") && s.Set[joined(workPath, names[k]) + "/"]
+//@   ensures (exists k int :: 0 <= k && k < len(names) && names[k] == "/") ==> s.SystemRoot
+//@   ensures forall x string :: old(has(s.Set, x) && s.Set[x]) ==> has(s.Set, x) && s.Set[x]
+//@   loop 0: invariant -1 <= rangeindex && rangeindex < len(names) && s == old(s) && s.Set == old(s.Set)
+//@   loop 0: invariant forall k int :: 0 <= k && k <= rangeindex && isabs(names[k]) && names[k] != "/" ==> has(s.Set, names[k]) && s.Set[names[k]]
+//@   loop 0: invariant forall k int :: 0 <= k && k <= rangeindex && !isabs(names[k]) ==> has(s.Set, joined(workPath, names[k]) + "/") && s.Set[joined(workPath, names[k]) + "/"]
+//@   loop 0: invariant (exists k int :: 0 <= k && k <= rangeindex && names[k] == "/") ==> s.SystemRoot
+//@   loop 0: invariant old(s.SystemRoot) ==> s.SystemRoot
+//@   loop 0: invariant forall x string :: old(has(s.Set, x) && s.Set[x]) ==> has(s.Set, x) && s.Set[x]
